@@ -269,6 +269,36 @@ def rule_delimited_error_helper(ctx):
     decide(ctx, "O10.csv-error", "csv failure -> DataFormatError for every line number", qualname, cell, min_cells=5)
 
 
+def rule_definite_assignment(ctx):
+    """
+    X-DEF: in every function reachable from the API entry points each read of a local name is preceded by an assignment
+    on every path (guard booleans and repeated tests are treated as correlated) - otherwise CID or data text that steers
+    execution down that path ends in UnboundLocalError.
+    """
+    import ast as _ast
+
+    from ..xdef import possibly_unbound
+
+    model = ctx.model
+    escape, _ = analysis(model)
+    reachable = escape.reachable(list(ENTRY_POINTS))
+    ctx.res.minimum("O10.xdef", 150)
+    # positive fixture: the rule must flag the classic shape on every run
+    fixture = _ast.parse("def f(items):\n    for item in items:\n        if item:\n            found = item\n    return found\n").body[0]
+    if [name for name, _, _ in possibly_unbound(fixture)] != ["found"]:
+        ctx.res.error("X-DEF positive fixture not flagged")
+    for qualname in sorted(reachable):
+        func = model.functions[qualname]
+        reports = possibly_unbound(func.node)
+        what = "%s: every local is assigned before it is read" % qualname.replace("cutplace.", "")
+        if not reports:
+            ctx.res.ok("O10.xdef", what, False)
+        for name, lineno, valuation in reports:
+            ctx.res.fail("O10.xdef", what, "%s:O10.xdef:%s" % (qualname.replace("cutplace.", ""), name),
+                         "%s:%d (%s)" % (func.module.relpath, lineno, qualname.replace("cutplace.", "")),
+                         "local %r may be read before it is assigned (guards %s): UnboundLocalError instead of a cutplace error" % (name, valuation or "none"))
+
+
 def rule_field_rows(ctx):
     """Field rows of a CID: every combination of mark, length shape, example and format is accepted or an InterfaceError."""
     from .c09 import rule_field_row
@@ -276,4 +306,4 @@ def rule_field_rows(ctx):
     rule_field_row(ctx, "O10.fieldrow", mode="errors")
 
 
-RULES = [rule_escapes, rule_oserror_stays_oserror, rule_range_constructors, rule_setters, rule_field_rows, rule_delimited_error_helper]
+RULES = [rule_escapes, rule_oserror_stays_oserror, rule_range_constructors, rule_setters, rule_field_rows, rule_delimited_error_helper, rule_definite_assignment]
